@@ -389,7 +389,32 @@ PREDS = {
 }
 
 
+def make_pred(name):
+    """a fresh predicate object per call; "first2" / "alt" remember how often they were asked"""
+    if name in PREDS:
+        return PREDS[name]
+    calls = [0]
+
+    def first2(x):
+        calls[0] += 1
+        return calls[0] <= 2
+
+    def alt(x):
+        calls[0] += 1
+        return calls[0] % 2 == 1
+    return {"first2": first2, "alt": alt}[name]
+
+
+def _boom_w(j):
+    from codec import Boom
+    if isinstance(j, str):
+        raise Boom()
+    return j
+
+
 def _conv_kwargs(conv):
+    if conv == "boom":
+        return dict(to_wrapped_value=_boom_w)
     if conv == "neg":
         return dict(to_wrapped_value=_neg, to_json_value=_neg)
     if conv == "box":
@@ -592,10 +617,12 @@ def observe_descr_op(env, doc, op, fin, views, iters):
         elif k == "l.iter":
             fin("vals", [], [_unbox(x) for x in view], many=True)
         elif k == "l.keep":
-            view.keep_all(lambda w: PREDS[op[2]](_unbox(w)))
+            pk = make_pred(op[2])
+            view.keep_all(lambda w: pk(_unbox(w)))
             fin("ok", [], None, False)
         elif k == "l.remove":
-            view.remove_all(lambda w: PREDS[op[2]](_unbox(w)))
+            pr = make_pred(op[2])
+            view.remove_all(lambda w: pr(_unbox(w)))
             fin("ok", [], None, False)
         else:
             raise ValueError(f"bad list op {op!r}")
